@@ -201,6 +201,11 @@ pub fn gen_c11(rng: &mut Rng, thorough: bool) -> Vec<Tagged> {
         spec.weights = Some(vec![LW::Block(bw)]);
         out.push((format!("block-huge-flat-{:?}", acc), Case::Net(spec, NetCmd::Forward(rand_input(rng, Sh::Flat(nbig), 0)))));
     }
+    // feedback block + skip connection + loop connection in one network
+    for r in 0..(if thorough { 40 } else { 10 }) {
+        let (spec, input, _) = combo_net(rng, r, 1);
+        out.push(("block-skip-loop-combination".into(), Case::Net(spec, NetCmd::Forward(rand_input(rng, input, 0)))));
+    }
     // blocks that contain a max-pool layer with a real window
     for r in 0..(if thorough { 48 } else { 12 }) {
         if let Some((spec, input, _)) = pool_block_net(rng, r, 1, false) {
@@ -299,6 +304,14 @@ pub fn gen_c16(rng: &mut Rng, thorough: bool) -> Vec<Tagged> {
     let mut o = GenOpts::default();
     o.wkind = 1;
     o.acts = vec![Act::Linear, Act::Tanh, Act::Sigmoid, Act::ReLU, Act::Leaky];
+    // skip connections in networks that also contain a feedback block and a loop connection: forward and gradients
+    for r in 0..(if thorough { 40 } else { 12 }) {
+        let (mut spec, input, outsh) = combo_net(rng, r, 1);
+        out.push(("skip-block-loop-combination-fwd".into(), Case::Net(spec.clone(), NetCmd::Forward(rand_input(rng, input, 0)))));
+        spec.obj = Obj::MSE;
+        spec.loops = vec![];
+        out.push(("skip-block-combination-bwd".into(), Case::Net(spec, NetCmd::Backward(rand_input(rng, input, 2), rand_target(rng, outsh, Obj::MSE)))));
+    }
     let reps = if thorough { 400 } else { 60 };
     for r in 0..reps {
         // dense chains of equal width, or spatial "same" chains, or a mix with equal element count
@@ -529,6 +542,11 @@ pub fn gen_c17(rng: &mut Rng, thorough: bool) -> Vec<Tagged> {
         spec.loops = vec![(lp.0, lp.1, 1 + r % 3, r % 2 == 1)];
         out.push((format!("loop-with-skip-connections-{}", r % 3), Case::Net(spec, NetCmd::Forward(rand_input(rng, Sh::Flat(n), 0)))));
     }
+    // loop + feedback block + skip connection in one network
+    for r in 0..(if thorough { 40 } else { 10 }) {
+        let (spec, input, _) = combo_net(rng, r, 1);
+        out.push(("loop-block-skip-combination".into(), Case::Net(spec, NetCmd::Forward(rand_input(rng, input, 0)))));
+    }
     // many iterations (beyond 2^6) with every accumulation
     for (ai, acc) in ALL_ACCS.iter().enumerate() {
         let k = [65usize, 70, 130, 66, 129][ai];
@@ -619,6 +637,44 @@ pub fn train_net(rng: &mut Rng, o: &GenOpts, spatial: bool, softmax: bool) -> Op
         }
     }
     Some((spec, input, *shapes.last().unwrap()))
+}
+
+/// a flat network that combines the three structural features: dense, feedback block, dense, dense, dense
+/// with a skip connection (variants: into the block, out of the block, around it) and a loop connection
+/// behind the block
+pub fn combo_net(rng: &mut Rng, r: usize, wkind: u8) -> (NetSpec, Sh, Sh) {
+    let n = 2 + r % 2;
+    let input = Sh::Flat(n);
+    let mut spec = NetSpec::new(input.to_shape());
+    let mut ws = vec![];
+    let acts = [Act::Tanh, Act::Sigmoid, Act::Linear];
+    let mut dense = |spec: &mut NetSpec, ws: &mut Vec<LW>, rng: &mut Rng| {
+        let d = Simple::Dense { out: n, act: *rng.pick(&acts), bias: rng.coin(), dropout: None };
+        ws.push(LW::One(rand_w(rng, &d, Sh::Flat(n), wkind)));
+        spec.layers.push(LayerSpec::One(d));
+    };
+    dense(&mut spec, &mut ws, rng);
+    let nl = 1 + r % 2;
+    let ls: Vec<Simple> = (0..nl).map(|_| Simple::Dense { out: n, act: *rng.pick(&acts), bias: rng.coin(), dropout: None }).collect();
+    let bw: Vec<W> = ls.iter().map(|l| rand_w(rng, l, Sh::Flat(n), wkind)).collect();
+    ws.push(LW::Block(bw));
+    spec.layers.push(LayerSpec::Block { layers: ls, loops: 1 + (r / 2) % 3, inskips: r % 3 == 1, outskips: r % 3 == 2, acc: [Acc::Add, Acc::Mean][r % 2] });
+    for _ in 0..3 {
+        dense(&mut spec, &mut ws, rng);
+    }
+    spec.weights = Some(ws);
+    spec.connect = match r % 4 {
+        0 => vec![(0, 1)],          // into the block
+        1 => vec![(1, 2)],          // the block's input into the layer behind it
+        2 => vec![(0, 2)],          // around the block
+        _ => vec![(0, 1), (2, 4)],  // into the block and behind the loop's start
+    };
+    spec.skipacc = Acc::Add;
+    if r % 4 != 3 {
+        spec.loops = vec![(4, 3, 1 + r % 2, r % 5 == 0)];
+        spec.loopacc = ALL_ACCS[r % 5];
+    }
+    (spec, input, Sh::Flat(n))
 }
 
 /// scripts: several calls on ONE network object (learn / validate / predict / backward / predict_batch in
@@ -721,6 +777,14 @@ pub fn gen_c04(rng: &mut Rng, thorough: bool) -> Vec<Tagged> {
             }
             out.push((tag, Case::Net(spec, NetCmd::Learn { data, val: None, batch, epochs })));
         }
+    }
+    // learning on networks that combine a feedback block, a skip connection and a loop connection
+    for r in 0..(if thorough { 30 } else { 8 }) {
+        let (mut spec, input, outsh) = combo_net(rng, r, 2);
+        spec.opt = rand_opt(rng, r % 5);
+        spec.obj = Obj::MSE;
+        let data = rand_data(rng, 3, input, outsh, Obj::MSE);
+        out.push(("learn-block-skip-loop-combination".into(), Case::Net(spec, NetCmd::Learn { data, val: None, batch: 2, epochs: 2 })));
     }
     // long runs (7 .. 70 epochs) in which the reported loss stays constant for many epochs although the
     // step is no no-op (dead ReLU + weight decay, momentum carrying on, Adam moments, a loss saturated in
